@@ -89,6 +89,27 @@ Theorem C13_v4_no_panic : forall st f t, snd (defrag4 fixedv st f t) <> RPanic.
 Proof. exact v4_no_panic. Qed.
 Print Assumptions C13_v4_no_panic.
 
+(* From ANY state and for ANY fragment, without hypotheses: a returned datagram carries the header of
+   the fragment just handed over (the stored fragments may have other header lengths),
+   Length = 4*IHL + |payload|, and this is at most 65535: a fragment set that would need a longer
+   datagram gets an error or nothing, never a wrapped Length. *)
+Theorem C13_v4_oversize_refused : forall st f t st' d,
+  defrag4 fixedv st f t = (st', RDg d) ->
+  key_of d = key_of f /\ f_ihl d = f_ihl f /\ f_hdr d = f_hdr f /\ f_flags d = 0 /\ f_off d = 0 /\
+  f_len d = 4 * f_ihl f + plen d /\ 4 * f_ihl f + plen d <= 65535.
+Proof. exact v4_oversize_refused. Qed.
+Print Assumptions C13_v4_oversize_refused.
+
+(* non-vacuity on both sides of the limit: first fragment with IHL 15 arriving last, the others IHL 5 *)
+Example C13_v4_oversize_nonvacuous :
+  Forall (fun o => match o with OFrag f _ => security_ok fixedv f = true | _ => True end) (mixed_ops 65515) /\
+  snd (run4 fixedv [] (mixed_ops 65515)) = [Res RNone; Res RNone; Res RErr] /\
+  match nth_error (snd (run4 fixedv [] (mixed_ops 65475))) 2 with
+  | Some (Res (RDg d)) => f_ihl d = 15 /\ f_len d = 65535 /\ plen d = 65475
+  | _ => False
+  end.
+Proof. exact mixed_ihl_oversize. Qed.
+
 Example C13_v4_safety_nonvacuous :
   exists d, Forall op_wf hole_ops /\ Forall op_wf overlap_ok_ops /\
     nth_error (snd (run4 fixedv [] overlap_ok_ops)) 2 = Some (Res (RDg d)) /\ plen d = 24.
